@@ -161,10 +161,38 @@ func TestC08(t *testing.T) {
 				c.c08Text(s, "boundaries", cs, false)
 			}
 		})
+		c.Sub("assignment-targets", func(s *Sub) {
+			if c.Shard != 0 {
+				return
+			}
+			// every expression form on the left of '=' (plain, parenthesised once and twice), at statement level and nested
+			forms := []string{"a", "a[0]", "a.k", "a[0][1]", "a.k.v", "a[0].k", "a.k[0]", "f()", "f().k", "f()[0]", "f(1)(2)", "a + b", "-a", "!a", "a ** 2", "1", "\"s\"", "nil", bn.KwTrue,
+				"[1]", "[1][0]", "{}", "a = b", "a[0] = b", "a " + bn.KwOr + " b", "a == b", bn.BLen, bn.BLen + "(a)", "a[b = 1]", "a[0].k.v[2]"}
+			wraps := []string{"%s", "(%s)", "((%s))", "(%s)[0]", "(%s).k", "-(%s)"}
+			ctxs := []string{"%s = 1;", bn.KwPrint + " %s = 1;", "x = %s = 1;", "f(%s = 1);", "[%s = 1];", bn.KwIf + " (%s = 1) { }", bn.KwVar + " v = %s = 1;", bn.KwPrint + " \"ran\";\n%s = 1;\n" + bn.KwPrint + " \"after\";"}
+			for _, f := range forms {
+				for _, w := range wraps {
+					for _, cx := range ctxs {
+						c.c08Text(s, "assignment-targets", fmt.Sprintf(cx, fmt.Sprintf(w, f)), true)
+					}
+				}
+			}
+			c.Ev.MarkExhaustive(fmt.Sprintf("%d expression forms x %d wrappings on the left of '=' in %d contexts", len(forms), len(wraps), len(ctxs)))
+		})
 		n := 1500
 		if c.Thorough {
 			n = 30000
 		}
+		c.Rapid("rand-assignment-targets", n/3, func(rt *rapid.T, s *Sub) {
+			g := &synGen{rt: rt}
+			lhs := bn.ExprText(g.expr(rapid.IntRange(0, 3).Draw(rt, "depth")), bn.Minimal)
+			if rapid.Bool().Draw(rt, "wrap") {
+				lhs = "(" + lhs + ")"
+			}
+			rhs := bn.ExprText(g.expr(1), bn.Minimal)
+			ctx := rapid.SampledFrom([]string{"%s = %s;", bn.KwPrint + " %s = %s;", "q = [%s = %s];", "%s = %s = 2;"}).Draw(rt, "ctx")
+			c.c08Text(s, "rand-assignment-targets", fmt.Sprintf(ctx, lhs, rhs), false)
+		})
 		c.Rapid("rand-edits", n, func(rt *rapid.T, s *Sub) {
 			g := &synGen{rt: rt}
 			prog := g.program(rapid.IntRange(1, 3).Draw(rt, "depth"), 4)
